@@ -241,4 +241,170 @@ theorem pick_tr (s : St) (pick : Nat) (mt : Nat → Int) (h : S_forward_Handler)
     simp only [Handler_pickActiveUpstream, ha, idx_nat, List.getElem?_map, List.length_map]
     simp [hl, pickActive, hk]
 
+/-! ## `healthcheckUpstream`: one probe and the bookkeeping of `lastFailedHealthcheck` -/
+
+/-- **In backoff** (`time.Since(lastFailed) < hcBackoff`, strictly): reported as such, no probe is
+sent (`checkUpstream` is not reached) and the recorded failure time stays. -/
+theorem hc_backoff_skips_probe (h : S_forward_Handler) (ctx req lg : Option Int) (st : S_forward_upstreamStatus)
+    (mr isz : Bool) (since now : Int) (ck : Option String) (hb : since < h.hcBackoff) :
+    Handler_healthcheckUpstream h ctx (some st) req mr lg since ck now isz
+      = some (some st, true, none, [("Since", [toString st.lastFailedHealthcheck])]) := by
+  simp [Handler_healthcheckUpstream, hb]
+
+/-- **Backoff elapsed** (`≥`, the boundary included) **and the probe fails**: the failure time becomes
+`time.Now()`, an error is returned, the upstream is not "in backoff" for the caller. -/
+theorem hc_probe_failed (h : S_forward_Handler) (ctx req lg : Option Int) (st : S_forward_upstreamStatus)
+    (mr isz : Bool) (since now : Int) (e : String) (hb : h.hcBackoff ≤ since) :
+    Returns (Handler_healthcheckUpstream h ctx (some st) req mr lg since (some e) now isz)
+      fun (st', inBackoff, err, tr) =>
+        st' = some { st with lastFailedHealthcheck := now } ∧ inBackoff = false ∧ err ≠ none
+        ∧ count "checkUpstream" tr = 1 := by
+  have : ¬ since < h.hcBackoff := by omega
+  simp [Handler_healthcheckUpstream, this, Returns, count, names, wrapErr]
+
+/-- **Backoff elapsed and the probe succeeds**: the failure time is reset to the zero time and no
+error is returned — the caller puts the upstream back into rotation. -/
+theorem hc_probe_ok (h : S_forward_Handler) (ctx req lg : Option Int) (st : S_forward_upstreamStatus)
+    (mr isz : Bool) (since now : Int) (hb : h.hcBackoff ≤ since) :
+    Returns (Handler_healthcheckUpstream h ctx (some st) req mr lg since none now isz)
+      fun (st', inBackoff, err, tr) =>
+        st' = some { st with lastFailedHealthcheck := 0 } ∧ inBackoff = false ∧ err = none
+        ∧ tr.take 2 = [("Since", [toString st.lastFailedHealthcheck]),
+                       ("checkUpstream", [toString ctx, toString st.upstream, toString req])] := by
+  have : ¬ since < h.hcBackoff := by omega
+  simp [Handler_healthcheckUpstream, this, Returns, wrapErr]
+
+/-- It panics exactly on a nil status. -/
+theorem hc_no_panic_iff (h : S_forward_Handler) (ctx req lg : Option Int) (st : Option S_forward_upstreamStatus)
+    (mr isz : Bool) (since now : Int) (ck : Option String) :
+    Handler_healthcheckUpstream h ctx st req mr lg since ck now isz ≠ none ↔ st ≠ none := by
+  cases st <;> cases ck <;> by_cases hb : since < h.hcBackoff <;>
+    simp [Handler_healthcheckUpstream, hb]
+
+/-- Encoding of the model's `lastFailed` as a `time.Time` token: the zero time is the token 0. -/
+def encLF : Option Int → Int
+  | none => 0
+  | some f => f
+
+/-- What `time.Since(lastFailed)` returns at time `t`: for the zero time the saturated maximal
+duration `big` (Go: `math.MaxInt64`). -/
+def sinceOf (big : Int) (lf : Option Int) (t : Int) : Int :=
+  match lf with
+  | none => big
+  | some f => t - f
+
+/-- **The translated probe step is the model's `hcOne`** on every model state: "in backoff" is
+`Agd.Forward.inBackoff`, and the new `lastFailed` and the success flag are those `hcOne` computes.
+Range hypothesis: the configured backoff does not exceed the saturated duration. -/
+theorem hcUpstream_tr (b big : Int) (pr : Nat → Probe) (a : HcAcc) (u : Nat) (h : S_forward_Handler)
+    (ctx req lg tok : Option Int) (mr isz : Bool) (e : String)
+    (hb : h.hcBackoff = b) (hbig : b ≤ big) :
+    Returns (Handler_healthcheckUpstream h ctx (some ⟨tok, encLF (a.lf u)⟩) req mr lg
+        (sinceOf big (a.lf u) (pr u).tCheck) (if (pr u).ok then none else some e) (pr u).tFail isz)
+      fun (st', inB, err, _) =>
+        inB = inBackoff b (a.lf u) (pr u).tCheck
+        ∧ st' = some ⟨tok, encLF ((hcOne b pr a u).lf u)⟩
+        ∧ ((hcOne b pr a u).act = if (!inB && err.isNone) then a.act ++ [u] else a.act) := by
+  subst hb
+  cases hl : a.lf u with
+  | none =>
+    have : ¬ big < h.hcBackoff := by omega
+    cases hok : (pr u).ok <;>
+      simp [Handler_healthcheckUpstream, sinceOf, this, hok, Returns, inBackoff, hcOne, hl, encLF, put,
+        wrapErr]
+  | some f =>
+    by_cases hlt : (pr u).tCheck - f < h.hcBackoff
+    · simp [Handler_healthcheckUpstream, sinceOf, hlt, Returns, inBackoff, hcOne, hl, encLF]
+    · cases hok : (pr u).ok <;>
+        simp [Handler_healthcheckUpstream, sinceOf, hlt, hok, Returns, inBackoff, hcOne, hl, encLF, put,
+          wrapErr]
+
+example : inBackoff 30 (some 100) 129 = true ∧ inBackoff 30 (some 100) 130 = false := by decide
+
+/-! ## `healthcheck`: the loop over the main upstreams and the new active list
+
+The translator gives an opaque call one result parameter per call *site*: all iterations of the loop
+see the same `(inBackoff, ckErr)` from `healthcheckUpstream`.  The three theorems below therefore
+cover the uniform rounds; the per-upstream step is `hcUpstream_tr` above. -/
+
+/-- Loop invariant rule for translated `for … range` loops that neither break, return nor panic. -/
+theorem range_inv {α σ ρ : Type} {f : σ → Int → α → Option (Step σ ρ)} (good : α → Prop)
+    (Q : List α → σ → Prop)
+    (step : ∀ pre x s i, good x → Q pre s → ∃ s', f s i x = some (.next s') ∧ Q (pre ++ [x]) s') :
+    ∀ (xs pre : List α) (s : σ) (i : Int) (r : Option (σ ⊕ ρ)), goRangeFrom? i xs s f = r →
+      (∀ x ∈ xs, good x) → Q pre s → ∃ s', r = some (.inl s') ∧ Q (pre ++ xs) s' := by
+  intro xs
+  induction xs with
+  | nil => intro pre s i r hr _ hq; exact ⟨s, by simpa [goRangeFrom?] using hr.symm, by simpa using hq⟩
+  | cons x xs ih =>
+    intro pre s i r hr hg hq
+    obtain ⟨s', hs, hq'⟩ := step pre x s i (hg x (by simp)) hq
+    simp only [goRangeFrom?, hs] at hr
+    obtain ⟨s'', h1, h2⟩ := ih (pre ++ [x]) s' (i + 1) r hr (fun y hy => hg y (by simp [hy])) hq'
+    exact ⟨s'', h1, by simpa using h2⟩
+
+/-- **An upstream reported "in backoff" is not put on the active list** (and with nobody active the
+round returns an error; `h.activeUpstreams` is replaced, nothing else of the handler changes). -/
+theorem healthcheck_backoff_not_active (h : S_forward_Handler) (ctx rq : Option Int) (mr : Bool)
+    (fu ra : String) (ck : Option String) :
+    Returns (Handler_healthcheck h ctx mr fu ra rq (true, ck)) fun (h', err, _) =>
+      h' = { h with activeUpstreams := [] } ∧ err ≠ none := by
+  unfold Handler_healthcheck
+  simp only [goRange?]
+  split <;>
+  · generalize hr : goRangeFrom? 0 h.upstreams _ _ = r
+    obtain ⟨s', rfl, hq⟩ := range_inv (fun _ => True) (fun _ s => s.2.1 = [])
+      (by intro pre x s i _ hq; obtain ⟨a, b, c⟩ := s; simp_all) h.upstreams [] _ 0 r hr (by simp) rfl
+    obtain ⟨a, b, c⟩ := s'
+    simp_all [Returns, firstErr_eq_none]
+
+/-- **An upstream whose probe failed is not put on the active list** either. -/
+theorem healthcheck_failed_not_active (h : S_forward_Handler) (ctx rq : Option Int) (mr : Bool)
+    (fu ra : String) (e : String) :
+    Returns (Handler_healthcheck h ctx mr fu ra rq (false, some e)) fun (h', err, _) =>
+      h' = { h with activeUpstreams := [] } ∧ err ≠ none := by
+  unfold Handler_healthcheck
+  simp only [goRange?]
+  split <;>
+  · generalize hr : goRangeFrom? 0 h.upstreams _ _ = r
+    obtain ⟨s', rfl, hq⟩ := range_inv (fun _ => True) (fun _ s => s.2.1 = [])
+      (by intro pre x s i _ hq; obtain ⟨a, b, c⟩ := s; simp_all) h.upstreams [] _ 0 r hr (by simp) rfl
+    obtain ⟨a, b, c⟩ := s'
+    simp_all [Returns, firstErr_eq_none]
+
+theorem fm_some (sts : List S_forward_upstreamStatus) :
+    List.filterMap ((fun x => Option.map (fun x => x.upstream) x) ∘ some) sts = sts.map (·.upstream) := by
+  induction sts with
+  | nil => rfl
+  | cons a t ih => simp [ih]
+
+/-- **Upstreams probed successfully — and only a round's own results — make up the new active
+list**, in the order of `h.upstreams`; the round reports success iff somebody is active. -/
+theorem healthcheck_ok_active (h : S_forward_Handler) (ctx rq : Option Int) (mr : Bool)
+    (fu ra : String) (sts : List S_forward_upstreamStatus) (hu : h.upstreams = sts.map some) :
+    Returns (Handler_healthcheck h ctx mr fu ra rq (false, none)) fun (h', err, _) =>
+      h' = { h with activeUpstreams := sts.map (·.upstream) } ∧ (err = none ↔ sts ≠ []) := by
+  unfold Handler_healthcheck
+  simp only [goRange?]
+  split <;>
+  · generalize hr : goRangeFrom? 0 h.upstreams _ _ = r
+    obtain ⟨s', rfl, hq⟩ := range_inv (fun x => x ≠ none)
+      (fun pre s => s.2.1 = pre.filterMap (fun x => x.map (·.upstream)) ∧ s.1 = [])
+      (by
+        intro pre x s i hx hq
+        obtain ⟨a, b, c⟩ := s
+        cases x with
+        | none => exact absurd rfl hx
+        | some y => simp_all) h.upstreams [] _ 0 r hr (by simp [hu]) ⟨rfl, rfl⟩
+    obtain ⟨a, b, c⟩ := s'
+    simp [hu] at hq
+    rw [fm_some] at hq
+    obtain ⟨hb, ha⟩ := hq
+    subst hb ha
+    cases sts with
+    | nil => simp [Returns]
+    | cons y t =>
+      have : ¬ ((t.length : Int) + 1 = 0) := by omega
+      simp [Returns, this]
+
 end Agd.Tie.TrC17
